@@ -221,7 +221,7 @@ func checkMain(repo, verif string, args []string) int {
 	}
 	obls = append(obls, lemObls...)
 
-	to := 30
+	to := 60
 	if tier == "thorough" {
 		to = 120
 	}
